@@ -167,6 +167,24 @@ def check(prog, rep, tier):
                     rep.bad('R20.b', key, file=fn.file, line=n.lineno, func=fn.qualname,
                             found='sequence number written outside the handler', key=key)
 
+    # write_msg holds the file object it fetched from the per-peer table: it must not call anything that closes or
+    # replaces that entry (rotation) before it has finished with the handle
+    replacers = set()
+    for mname, mf in cls.methods.items():
+        for n in ast.walk(mf.node):
+            if isinstance(n, ast.Assign) and any(isinstance(t, ast.Subscript) and src_of(t.value) == 'self.peer_files'
+                                                 for t in n.targets):
+                replacers.add(mname)
+    stale = [n for n in ast.walk(w.node) if isinstance(n, ast.Call) and isinstance(n.func, ast.Attribute)
+             and isinstance(n.func.value, ast.Name) and n.func.value.id == 'self' and n.func.attr in replacers]
+    if stale:
+        rep.bad('R20.b', 'stale-handle', file=w.file, line=stale[0].lineno, func=w.qualname,
+                found='write_msg calls self.%s(), which closes / replaces the per-peer file, while it holds the file '
+                      'object fetched before: the record goes to a closed file and is lost' % stale[0].func.attr,
+                expected='rotate outside write_msg, or fetch the file object after rotating', key='stale-handle')
+    else:
+        rep.ok('R20.b', 'stale-handle', file=w.file, line=w.node.lineno, found='replacers: %s' % sorted(replacers))
+
     # every access to the per-peer tables inside write_msg / check_file_size uses the same key
     for fn in (w, cls.find_method('check_file_size')):
         peerp = fn.params[1] if len(fn.params) > 1 else 'peer'
